@@ -52,6 +52,26 @@ def stable_var(fn, res_var, unit):
     return res_var
 
 
+def _takes(fn):
+    """the function loads a tracked field into a local and clears a field of that type: the take idiom (v = s->f; s->f = NULL;)"""
+    from upv.facts import strip_all_casts, is_assign, const_of
+    loads = stores = False
+    for _, _, x in fn.nodes():
+        if x.get('k') == 'decl':
+            for v in x['vars']:
+                i = strip_all_casts(v['init']) if isinstance(v.get('init'), dict) else None
+                if v.get('t') in own.TRACKED_TYPES and isinstance(i, dict) and i.get('k') == 'mem':
+                    loads = True
+        elif is_assign(x) and x.get('op') == '=':
+            l = strip_all_casts(x['lhs'])
+            r = strip_all_casts(x['rhs'])
+            if isinstance(l, dict) and l.get('k') == 'mem' and l.get('t') in own.TRACKED_TYPES and const_of(r) == 0:
+                stores = True
+            if isinstance(l, dict) and l.get('k') == 'ref' and l.get('t') in own.TRACKED_TYPES and isinstance(r, dict) and r.get('k') == 'mem':
+                loads = True
+    return loads and stores
+
+
 def run_own(rep, prog, rule='R-own', only_units=None, local_functions=True):
     inputs = input_functions(prog)
     handlers = handler_functions(prog)
@@ -97,7 +117,7 @@ def run_own(rep, prog, rule='R-own', only_units=None, local_functions=True):
                 if not fn.inmain or not fn.blocks or (fname, 'input') in done or (fname, 'handler') in done:
                     continue
                 # only functions that produce something are of interest
-                if not any(x.get('t') in own.TRACKED_TYPES for _, _, x in fn.calls()):
+                if not any(x.get('t') in own.TRACKED_TYPES or own.OUTPARAM_PRODUCER_RE.search(x.get('fn') or '') for _, _, x in fn.calls()) and not _takes(fn):
                     continue
                 res = W.explore(u, fn, owned_params=())
                 stats['states'] += res['states']
